@@ -192,7 +192,11 @@ def run(ctx: Ctx, rs: RuleSet, tier: str):
           isinstance(a, ast.Name) and a.id in nested_names
           for a in list(n.args) + [k.value for k in n.keywords])
       calls_nested = isinstance(n.func, ast.Name) and n.func.id in nested_names
-      if passes_build_fn or calls_nested:
+      # the traversal is started with the build callback, whatever form that
+      # has (closure, method of a visitor object, module-level function)
+      starts = unparse(n.func).split('.')[-1] in ('run', 'begin') and (
+          'Traversal' in unparse(n.func))
+      if passes_build_fn or calls_nested or starts:
         inside = any(
             any(sub is n for sub in ast.walk(ast.Module(body=w.body,
                                                         type_ignores=[])))
@@ -218,11 +222,11 @@ def run(ctx: Ctx, rs: RuleSet, tier: str):
   if len(build_methods) < 4:
     raise AnalysisError(f'expected >=4 __build__ implementations, found '
                         f'{sorted(build_methods)}')
-  closure = ctx.cg.reachable([BUILD], kinds=('exact', 'ref', 'nested'))
+  closure = ctx.cg.reachable([BUILD], kinds=('exact', 'ref', 'nested', 'inst'))
   reaches_build = set()
   # functions from which a __build__ is reachable
   for q in closure:
-    r = ctx.cg.reachable([q], kinds=('exact', 'ref', 'nested'))
+    r = ctx.cg.reachable([q], kinds=('exact', 'ref', 'nested', 'inst'))
     if build_methods & set(r):
       reaches_build.add(q)
   handlers_seen = 0
@@ -512,7 +516,7 @@ def _message_path(ctx: Ctx, rs: RuleSet):
   bf = ctx.func(BUILD)
   cb_q = 'fiddle._src.building.call_buildable'
   mm_q = 'fiddle._src.building._make_message'
-  inner = [f for f in bf.nested.values()]
+  inner = list(ctx.p.callbacks(bf))
   found = 0
   for f in inner:
     for c in ctx.calls(f):
